@@ -1,11 +1,12 @@
 /-
   SrcTieImplC04 — source ties (see SrcTieImpl.lean) for dr_exp, dr_expinv and their helpers
-  (SO3 calc_S1, calc_S2, calc_S1inv; SE3 calculate_q).
+  (SO3 calc_S1, calc_S2, calc_S1inv; SE3 and SE_K(3) calculate_q; Galilei calculate_r).
 -/
 import SmoothProps.SrcTieImplC03
 
 open Scalar Lin EigenSem
 
+set_option linter.unusedSectionVars false
 namespace SrcTieImpl
 variable {α : Type} [Scalar α]
 
@@ -36,5 +37,66 @@ theorem se3_dr_expinv (a : Vec α 6) : ImplSrc.SE3.dr_expinv a = SE3.dr_expinv a
   simp only [ImplSrc.SE3.dr_expinv, SE3.dr_expinv, memoM_eq, so3_dr_expinv, se3_calculate_q,
     block00_setBlock, tail3_tw, head3_tv]
   tie_mat
+
+/-! Galilei -/
+/-- `Scalar(2) * W * WV` is `(2·W)·WV` in the source; the model had `2·(W·WV)` before this tie existed and
+    has been corrected (the two are bit-identical in binary floating point: scaling by 2 is exact) -/
+theorem galilei_calculate_r (v w : Vec α 3) : ImplSrc.Galilei.calculate_r v w = Galilei.calculate_r v w := by
+  simp only [Galilei.calculate_r, memoM_eq]; tie_mat
+theorem galilei_dr_exp (a : Vec α 10) : ImplSrc.Galilei.dr_exp a = Galilei.dr_exp a := by
+  simp only [ImplSrc.Galilei.dr_exp, Galilei.dr_exp, memoM_eq, so3_calc_S1, so3_calc_S2, se3_calculate_q,
+    galilei_calculate_r, gal_tail3, gal_head3, gal_seg3]
+  tie_mat
+theorem galilei_dr_expinv (a : Vec α 10) : ImplSrc.Galilei.dr_expinv a = Galilei.dr_expinv a := by
+  simp only [ImplSrc.Galilei.dr_expinv, Galilei.dr_expinv, memoM_eq, so3_calc_S1inv, so3_calc_S2, se3_calculate_q,
+    galilei_calculate_r, gal_tail3, gal_head3, gal_seg3]
+  tie_mat
+
+/-! SE_K(3), every `k` (its private copy of `calculate_q` is the SE3 one) -/
+theorem sek3_calculate_q (v w : Vec α 3) : ImplSrc.SEK3.calculate_q v w = SE3.calculate_q v w := by
+  simp only [SE3.calculate_q, memoM_eq]; tie_mat
+theorem sek3_dr_exp {k : Nat} (a : Vec α (3 + 3 * k)) : ImplSrc.SEK3.dr_exp a = SEK3.dr_exp k a := by
+  simp only [ImplSrc.SEK3.dr_exp, SEK3.dr_exp, memoM_eq, so3_dr_exp, sek3_calculate_q, seg_tw]
+  rw [forLoop_blocks _ (SO3.dr_exp (SEK3.tw k a))
+    (fun i hi => SE3.calculate_q (vneg (segment 3 (3 * i) a)) (vneg (SEK3.tw k a)))]
+  · rfl
+  · intro i hi M hM
+
+    rw [blockM_setBlock_disj _ _ _ _ _ _ _ _ (by omega), hM]
+theorem sek3_dr_expinv {k : Nat} (a : Vec α (3 + 3 * k)) : ImplSrc.SEK3.dr_expinv a = SEK3.dr_expinv k a := by
+  simp only [ImplSrc.SEK3.dr_expinv, SEK3.dr_expinv, memoM_eq, so3_dr_expinv, sek3_calculate_q, seg_tw]
+  rw [forLoop_blocks _ (SO3.dr_expinv (SEK3.tw k a))
+    (fun i hi => mmul (mmul (mneg (SO3.dr_expinv (SEK3.tw k a)))
+      (SE3.calculate_q (vneg (segment 3 (3 * i) a)) (vneg (SEK3.tw k a)))) (SO3.dr_expinv (SEK3.tw k a)))]
+  · rfl
+  · intro i hi M hM
+
+    rw [hM, blockM_setBlock_disj _ _ _ _ _ _ _ _ (by omega), hM]
+
+/-! ### generic layer: `dr_exp`, `dr_expinv`, `dl_exp`, `dl_expinv` of LieGroupBase; `dr_rminus`,
+`dr_rminus_squarednorm` of derivatives_impl.hpp (see SrcTieImpl.lean) -/
+section base
+variable (G : LieModel α)
+theorem base_dr_exp (h : G.ShortCut) (a : Vec α G.dof) : BaseSrc.dr_exp G a = G.dr_exp a := by
+  unfold BaseSrc.dr_exp
+  cases hc : G.comm
+  · rfl
+  · exact (h.dr_exp hc a).symm
+theorem base_dr_expinv (h : G.ShortCut) (a : Vec α G.dof) : BaseSrc.dr_expinv G a = G.dr_expinv a := by
+  unfold BaseSrc.dr_expinv
+  cases hc : G.comm
+  · rfl
+  · exact (h.dr_expinv hc a).symm
+theorem base_dl_exp (h : G.ShortCut) (a : Vec α G.dof) : BaseSrc.dl_exp G a = G.dl_exp a := by
+  unfold BaseSrc.dl_exp LieModel.dl_exp; exact base_dr_exp G h _
+theorem base_dl_expinv (h : G.ShortCut) (a : Vec α G.dof) : BaseSrc.dl_expinv G a = G.dl_expinv a := by
+  unfold BaseSrc.dl_expinv LieModel.dl_expinv; exact base_dr_expinv G h _
+theorem derivs_dr_rminus (h : G.ShortCut) (e : Vec α G.dof) : BaseSrc.dr_rminus G e = Derivs.dr_rminus G e := by
+  unfold BaseSrc.dr_rminus Derivs.dr_rminus; exact base_dr_expinv G h _
+theorem derivs_dr_rminus_squarednorm (h : G.ShortCut) (e : Vec α G.dof) :
+    BaseSrc.dr_rminus_squarednorm G e = Derivs.dr_rminus_squarednorm G e := by
+  unfold BaseSrc.dr_rminus_squarednorm Derivs.dr_rminus_squarednorm
+  rw [base_dr_expinv G h]; rfl
+end base
 
 end SrcTieImpl
